@@ -26,9 +26,9 @@ def run(ctx):
     configs = [dict(conc=1), dict(conc=2, kv=True, mm=True)]
     if T:
         configs += [dict(conc=8, kv=True), dict(conc=16, mm=True), dict(conc=1, delta=True), dict(conc=2, delta=True, mm=True, gcduring=True),
-                    dict(conc=1, older=True), dict(conc=3, older=True, kv=True), dict(conc=2, kv=True, lblk=16), dict(conc=4, delta=True, lblk=64)]
+                    dict(conc=1, older=True), dict(conc=3, older=True, kv=True), dict(conc=2, kv=True, lblk=16), dict(conc=4, delta=True, lblk=64), dict(conc=2, delta=True, gcduring=True, mm=True, writers=vlib.NCPU + 3)]
     else:
-        configs += [dict(conc=2, delta=True, gcduring=True, lblk=16)]
+        configs += [dict(conc=2, delta=True, gcduring=True, lblk=16, writers=vlib.NCPU + 2)]
     nproc = min(16, vlib.NCPU)
     total = 0
     classes = {}
@@ -39,6 +39,8 @@ def run(ctx):
             extra.append("-gcduring")
         if o.get("older"):
             extra.append("-older")
+        if o.get("writers"):
+            extra += ["-writers", str(o["writers"])]
         items = 40 if not T else rng.choice([24, 40, 60])
         g = backup.gen(ctx, base, vlib.seed() * 100 + ci, items, backup.opt_list(o), extra)
         if g["ret"] != "ok":
